@@ -53,6 +53,7 @@ def shapes(grid):
 
 def scenarios(tier, seed):
     out = [("long", kind, side) for kind in ("mkt", "lim", "stp", "sl") for side in ("B", "S")]
+    out += [("other-pair", kind, side) for kind in ("mkt", "lim", "stp", "sl") for side in ("B", "S")]
     for ci in range(len(CONFIGS)):
         for kind in ("mkt", "lim", "stp", "sl"):
             for side in ("B", "S"):
@@ -88,6 +89,13 @@ def bar(d, e, t, ohlc, v):
 
 def run_case(cfg, kind, side, amount, lim, stp, bars):
     """Returns (list of (clause, detail), traded?)."""
+    try:
+        return _run_case(cfg, kind, side, amount, lim, stp, bars)
+    except Exception as x:  # noqa: valid requests with ample funds: nothing here may be refused, let alone crash
+        return [("internal-error", f"{type(x).__name__}: {x}")], False
+
+
+def _run_case(cfg, kind, side, amount, lim, stp, bars):
     liq, bp, qp, fee = cfg
     bad = []
     d, e = mk(liq, bp, qp, fee)
@@ -167,6 +175,100 @@ def run_case(cfg, kind, side, amount, lim, stp, bars):
     return bad, traded
 
 
+def run_other_pair(sc, tier, res):
+    """Bars of OTHER pairs - one sharing the order's base symbol (ETH/BTC), one sharing its quote symbol (BTC/USD) - leave
+    an order on ETH/USD exactly as it is, whatever their prices; the next bar of its own pair then treats it as usual
+    (infinite liquidity, ample funds: market by that bar, limit when reached, stop when reached)."""
+    from worlds.exch import PAIRS as ALLP
+    from worlds.exch_monitors import info_tuple
+    _, kind, side = sc
+    OWN, SAME_BASE, SAME_QUOTE = ALLP[1], ALLP[2], ALLP[0]
+    grid = GRIDS[3]
+    other_shapes = [(D(100), D(110), D(90), D(100)), (D(85), D(85), D(85), D(85)), (D(120), D(120), D(120), D(120)),
+                    (D(90), D(120), D(80), D(110))]
+    own_shapes = [(D(100), D(110), D(90), D(100)), (D(100), D(100), D(100), D(100)), (D(110), D(110), D(110), D(110)),
+                  (D(90), D(90), D(90), D(90))]
+    lims = grid if kind in ("lim", "sl") else [None]
+    stps = grid if kind in ("stp", "sl") else [None]
+    for lim in lims:
+        for stp in stps:
+            for others in itertools.chain(itertools.product((SAME_BASE, SAME_QUOTE), other_shapes),):
+                for n_other in (1, 2):
+                    for own in own_shapes:
+                        case = dict(kind="other-pair", order=kind, side=side, limit=None if lim is None else str(lim),
+                                    stop=None if stp is None else str(stp), other_pair=str(others[0]),
+                                    other_bar=list(map(str, others[1])), n_other=n_other, own_bar=list(map(str, own)))
+                        bad = []
+                        try:
+                            d = bs.backtesting_dispatcher()
+                            e = ex.Exchange(d, {"USD": D(10 ** 9), "BTC": D(10 ** 6), "ETH": D(10 ** 6)},
+                                            liquidity_strategy_factory=liquidity.InfiniteLiquidity)
+                            e.add_bar_source(bs.FifoQueueEventSource())
+                            e.set_pair_info(OWN, bs.PairInfo(0, 2))
+                            e.set_pair_info(SAME_QUOTE, bs.PairInfo(0, 2))
+                            e.set_pair_info(SAME_BASE, bs.PairInfo(0, 2))
+                            for s_ in ("BTC", "ETH"):
+                                e.set_symbol_precision(s_, 2)
+                            e.set_symbol_precision("USD", 2)
+                            t = 1
+                            d._set_now(T(t))
+                            flat = (D(100), D(100), D(100), D(100))
+                            call(e._on_bar_event(bs.BarEvent(T(t), bs.Bar(T(t - 1), OWN, *flat, D(1000)))))
+                            op = SIDE[side]
+                            if kind == "mkt":
+                                oid = call(e.create_market_order(op, OWN, D(1))).id
+                            elif kind == "lim":
+                                oid = call(e.create_limit_order(op, OWN, D(1), lim)).id
+                            elif kind == "stp":
+                                oid = call(e.create_stop_order(op, OWN, D(1), stp)).id
+                            else:
+                                oid = call(e.create_stop_limit_order(op, OWN, D(1), stp, lim)).id
+                            before = info_tuple(call(e.get_order_info(oid)))
+                            for k in range(n_other):
+                                t += 1
+                                d._set_now(T(t))
+                                call(e._on_bar_event(bs.BarEvent(T(t), bs.Bar(T(t - 1), others[0], *others[1], D(1000)))))
+                                now = info_tuple(call(e.get_order_info(oid)))
+                                if now != before:
+                                    bad.append(("changed-by-other-pair-bar", f"a bar of {others[0]} changed the order: {before[1:7]} "
+                                                f"-> {now[1:7]}"))
+                                    break
+                            if not bad:
+                                t += 1
+                                d._set_now(T(t))
+                                o, h, lo, c = own
+                                call(e._on_bar_event(bs.BarEvent(T(t), bs.Bar(T(t - 1), OWN, o, h, lo, c, D(1000)))))
+                                info = call(e.get_order_info(oid))
+                                filled = info.amount_filled == D(1)
+                                if kind == "mkt" and not filled:
+                                    bad.append(("market-not-filled-by-next-bar", "market order not filled by the next bar of its pair"))
+                                if kind == "stp":
+                                    reach = (side == "B" and h >= stp) or (side == "S" and lo <= stp)
+                                    if reach != filled:
+                                        bad.append(("stop-completeness", f"stop {stp}, own bar {own}, filled {info.amount_filled}"))
+                                if kind == "lim":
+                                    reach = (side == "B" and lo <= lim) or (side == "S" and h >= lim)
+                                    if reach != filled:
+                                        bad.append(("limit-completeness", f"limit {lim}, own bar {own}, filled {info.amount_filled}"))
+                                if info.amount_filled > 0:
+                                    dq, db = info.quote_amount_filled, info.amount_filled
+                                    if dq > h * db + D("0.005") or dq < lo * db - D("0.005"):
+                                        bad.append(("outside-bar-range", f"filled {db} for {dq} in own bar {own}"))
+                        except Exception as x:  # noqa
+                            bad.append(("internal-error", f"{type(x).__name__}: {x}"))
+                        res.executions += 1
+                        res.transitions += n_other + 2
+                        res.validated += 1
+                        key = h64(("other-pair", repr(case)))
+                        res.states.add(key)
+                        res.nontrivial.add(key)
+                        res.outcomes["other-pair"] += 1
+                        for clause, detail in bad:
+                            res.violation(f"{PROPERTY}:{clause}:{kind}:{side}", f"{detail}; {case}", case, size=n_other)
+    res.samples.append(dict(kind="other-pair", order=kind, side=side))
+    return res
+
+
 def run_long(sc, tier, res):
     """Completeness on long two-pair histories: an order on one pair rests while N bars of ANOTHER pair go by (the
     exchange looks its open orders up on each of them, re-indexing the list every 50 look-ups); the first bar of its own
@@ -201,14 +303,23 @@ def run_long(sc, tier, res):
                 oid = call(e.create_stop_limit_order(op, P, D(1), D(110) if side == "B" else D(90), D(110) if side == "B" else D(90))).id
             for k in range(extra_lookups):
                 call(e.get_open_orders())
-            for k in range(n_other):
-                t += 1
-                d._set_now(T(t))
-                call(e._on_bar_event(bs.BarEvent(T(t), bs.Bar(T(t - 1), P2, *flat, D(1000)))))
+            try:
+                for k in range(n_other):
+                    t += 1
+                    d._set_now(T(t))
+                    call(e._on_bar_event(bs.BarEvent(T(t), bs.Bar(T(t - 1), P2, *flat, D(1000)))))
+            except Exception as x:  # noqa
+                case = dict(kind="long", order=kind, side=side, other_pair_bars=n_other, extra_lookups=extra_lookups)
+                res.violation(f"{PROPERTY}:bar-raised:{kind}:{side}", f"a bar of another pair raised {type(x).__name__}: {x}; "
+                              f"{case}", case, size=n_other)
+                continue
             t += 1
             d._set_now(T(t))
             wide = (D(100), D(110), D(90), D(100))
-            call(e._on_bar_event(bs.BarEvent(T(t), bs.Bar(T(t - 1), P, *wide, D(1000)))))
+            try:
+                call(e._on_bar_event(bs.BarEvent(T(t), bs.Bar(T(t - 1), P, *wide, D(1000)))))
+            except Exception as x:  # noqa: reported below as "not filled" together with what was raised
+                res.extra["long_bar_raised"] += 1
             info = call(e.get_order_info(oid))
             res.executions += 1
             res.transitions += n_other + 2
@@ -230,6 +341,8 @@ def run_scenario(sc, tier):
     res = Result()
     if sc[0] == "long":
         return run_long(sc, tier, res)
+    if sc[0] == "other-pair":
+        return run_other_pair(sc, tier, res)
     ci, kind, side, lim_s = sc
     cfg = CONFIGS[ci]
     liq = cfg[0]
@@ -280,6 +393,11 @@ def _s(x):
 
 
 def replay(rep):
+    if rep.get("kind") == "other-pair":
+        res = Result()
+        run_other_pair(("other-pair", rep["order"], rep["side"]), "quick", res)
+        want = {k: rep[k] for k in ("limit", "stop", "other_pair", "other_bar", "n_other", "own_bar")}
+        return [v["message"] for v in res.violations if all(v["replay"].get(k) == x for k, x in want.items())][:3]
     if rep.get("kind") == "long":
         res = Result()
         run_long(("long", rep["order"], rep["side"]), "quick", res)
